@@ -181,3 +181,60 @@ func VerifFTEIDMark(g *FTEIDGenerator, id uint32) {
 	defer g.lock.Unlock()
 	g.usedMap[id-minValue] = true
 }
+
+// VerifUP4FreeIDs returns, per UP4 identifier pool, the identifiers that are free right now,
+// i.e. that the next allocation may hand out ("ctr", "appmeter", "sessmeter", "tnlpeer", "app").
+func (p *PFCPIface) VerifUP4FreeIDs() map[string]map[uint64]bool {
+	out := map[string]map[uint64]bool{}
+
+	u, ok := p.fp.(*UP4)
+	if !ok || len(u.counters) != 2 || u.counters[0].counterIDsPool == nil {
+		return out
+	}
+
+	u.stateMu.RLock()
+	defer u.stateMu.RUnlock()
+
+	toSet := func(s interface{ ToSlice() []interface{} }) map[uint64]bool {
+		m := map[uint64]bool{}
+
+		for _, v := range s.ToSlice() {
+			switch x := v.(type) {
+			case uint64:
+				m[x] = true
+			case uint32:
+				m[uint64(x)] = true
+			}
+		}
+
+		return m
+	}
+
+	out["ctr"] = toSet(u.counters[preQosCounterID].counterIDsPool)
+
+	if u.appMeterCellIDsPool != nil {
+		out["appmeter"] = toSet(u.appMeterCellIDsPool)
+	}
+
+	if u.sessMeterCellIDsPool != nil {
+		out["sessmeter"] = toSet(u.sessMeterCellIDsPool)
+	}
+
+	u.tunnelPeerMu.Lock()
+	out["tnlpeer"] = map[uint64]bool{}
+
+	for _, id := range u.tunnelPeerIDsPool {
+		out["tnlpeer"][uint64(id)] = true
+	}
+	u.tunnelPeerMu.Unlock()
+
+	u.applicationMu.Lock()
+	out["app"] = map[uint64]bool{}
+
+	for _, id := range u.applicationIDsPool {
+		out["app"][uint64(id)] = true
+	}
+	u.applicationMu.Unlock()
+
+	return out
+}
